@@ -12,6 +12,13 @@ import re, uuid, datetime, fractions, decimal, math
 PR = lisp_eval("(fn [v dup meta nsmaps] (binding [*print-dup* dup *print-meta* meta *print-namespace-maps* nsmaps] (pr-str v)))", "verif.c03")
 RD = lisp_eval("(fn [s] (read-string s))", "verif.c03")
 EQ = cfn("=")
+def pick(seq, i):
+    """seq[i] for a solver-chosen i by an explicit chain: one path per index, a concrete element on each
+    (indexing a heterogeneous list with a symbolic int makes CrossHair build a union of all elements)"""
+    for k in range(len(seq)):
+        if i == k:
+            return seq[k]
+    return None
 def read_all(text):
     with rt.ns_bindings("verif.c03"):
         return list(rd.read_str(text))
@@ -121,18 +128,18 @@ def specs(quick, timeout):
     add("string/unicode/len<=1", "s: str", ["len(s) <= 1"], "    return s", bound="every string of <= 1 code point", kind="string")
     # integers, ratios
     add("number/int", "a: int", ["-30 <= a <= 130"], "    return a", bound="ints -30..130 (str(int) realises under CrossHair)", kind="number")
-    add("number/big-int", "i0: int", ["0 <= i0 < 4"], "    return [10**23, -(2**64), 9007199254740993, -1][i0]", bound="4 big ints", kind="number")
+    add("number/big-int", "i0: int", ["0 <= i0 < 4"], "    return pick([10**23, -(2**64), 9007199254740993, -1], i0)", bound="4 big ints", kind="number")
     add("number/ratio", "p: int, q: int", ["1 <= q <= 4", "-9 <= p <= 9"],
         "    f = fractions.Fraction(p, q)\n    return f.numerator if f.denominator == 1 else f", bound="p/q, |p| <= 9, q <= 4", kind="number")
     a, pre = idx_args(1, len(FLOATS))
-    add("number/float-boundaries", a, pre, f"    return [{', '.join(FLOATS)}][i0]", bound=f"{len(FLOATS)} boundary floats (solver-chosen)", kind="number")
+    add("number/float-boundaries", a, pre, f"    return pick([{', '.join(FLOATS)}], i0)", bound=f"{len(FLOATS)} boundary floats (solver-chosen)", kind="number")
     add("number/decimal-print-dup", "i0: int", ["0 <= i0 < 5"],
-        "    return [decimal.Decimal('1.5'), decimal.Decimal('0'), decimal.Decimal('-3'), decimal.Decimal('1E+3'), decimal.Decimal('0.001')][i0]",
+        "    return pick([decimal.Decimal('1.5'), decimal.Decimal('0'), decimal.Decimal('-3'), decimal.Decimal('1E+3'), decimal.Decimal('0.001')], i0)",
         prop_body="    return roundtrip(build(i0), dup=True)", bound="5 decimals, *print-dup* on", kind="number")
-    add("number/complex", "i0: int", ["0 <= i0 < 3"], "    return [2j, -1.5j, 0j][i0]", bound="3 imaginary numbers", kind="number")
+    add("number/complex", "i0: int", ["0 <= i0 < 3"], "    return pick([2j, -1.5j, 0j], i0)", bound="3 imaginary numbers", kind="number")
     # keywords, symbols
     a, pre = idx_args(1, len(KWSYM))
-    add("ident/keywords-symbols", a, pre, f"    return [{', '.join(KWSYM)}][i0]", bound=f"{len(KWSYM)} keywords/symbols", kind="ident")
+    add("ident/keywords-symbols", a, pre, f"    return pick([{', '.join(KWSYM)}], i0)", bound=f"{len(KWSYM)} keywords/symbols", kind="ident")
     # collections with symbolic leaves
     T = "Optional[bool]"
     shapes = {
@@ -142,18 +149,35 @@ def specs(quick, timeout):
         "ns-map": "lmap.map({kw.keyword('a', ns='n'): x, kw.keyword('b', ns='n'): n})",
     }
     for nm, expr in shapes.items():
-        add(f"collection/{nm}", f"x: {T}, y: {T}, i0: int, nsmaps: bool", ["0 <= i0 < 3"], f"    n = [0, -1, 42][i0]\n    return {expr}",
+        add(f"collection/{nm}", f"x: {T}, y: {T}, i0: int, nsmaps: bool", ["0 <= i0 < 3"], f"    n = pick([0, -1, 42], i0)\n    return {expr}",
             prop_body="    return roundtrip(build(x, y, i0, nsmaps), nsmaps=nsmaps)",
             bound="leaves nil/true/false and an int from {0,-1,42}; *print-namespace-maps* symbolic", kind="collection")
-    add("collection/py-dict-2/value", f"x: {T}, i0: int", ["0 <= i0 < 3"], "    return {9: x, 2: [0, -1, 42][i0]}",
+    # every scalar kind of the property's universe as a direct element of every container (the element printer of a container
+    # is its own code path: a scalar that prints readably at top level must do so inside a collection too)
+    scalars = ["float('inf')", "float('-inf')", "-0.0", "1e23", "0.1", "5e-324", "fractions.Fraction(-1, 3)", "2j", "-1.5j", "10**23",
+               "'a\"b\\\\c'", "'\\n'", "kw.keyword('k', ns='q')", "sym.symbol('s?')", "uuid.UUID('12345678-1234-5678-1234-567812345678')",
+               "re.compile('a+b')", "b'\\x00\"z'", "float('nan')"]
+    containers = {
+        "vector": ("vec.vector([1, s])", True), "list": ("llist.list([s, 1])", True), "queue": ("lqueue.queue([s])", True),
+        "set": ("lset.set([s])", False), "map-value": ("lmap.map({kw.keyword('a'): s})", True), "map-key": ("lmap.map({s: 1})", False),
+        "nested": ("vec.vector([llist.list([lmap.map({kw.keyword('a'): vec.vector([s])})])])", True),
+        "py-list": ("[s, 1]", True), "py-tuple": ("(s,)", True), "py-dict-value": ("{'k': s}", True), "py-set": ("{s}", False),
+        "lazy-seq": ("llist.list([s, 2]).rest.cons(s)", True),
+    }
+    for cn, (expr, nan_ok) in containers.items():
+        ns_ = len(scalars) if nan_ok else len(scalars) - 1          # NaN is not used as a set member / map key (no value equals it)
+        add(f"scalar-in-container/{cn}", "i0: int", [f"0 <= i0 < {ns_}"], f"    SC = [{', '.join(scalars)}]\n    s = None\n    for k in range(len(SC)):\n        if i0 == k:\n            s = SC[k]\n    return {expr}",
+            bound=f"{ns_} scalars (special / boundary floats, ratio, imaginary, big int, strings with escapes, keyword, symbol, uuid, regex, bytes) as elements",
+            kind="scalar-in-container")
+    add("collection/py-dict-2/value", f"x: {T}, i0: int", ["0 <= i0 < 3"], "    return {9: x, 2: pick([0, -1, 42], i0)}",
         prop_body="    return roundtrip(build(x, i0), reprint=False)", bound="two-key #py dict: equal value of the same type", kind="collection")
-    add("collection/py-dict-2/reprint-same-text", f"x: {T}, i0: int", ["0 <= i0 < 3"], "    return {9: x, 2: [0, -1, 42][i0]}",
+    add("collection/py-dict-2/reprint-same-text", f"x: {T}, i0: int", ["0 <= i0 < 3"], "    return {9: x, 2: pick([0, -1, 42], i0)}",
         prop_body="    return roundtrip(build(x, i0))", bound="two-key #py dict: re-printing the re-read value gives the same text", kind="py-dict-key-order")
     # metadata under *print-meta*
     add("meta/every-collection-type", f"x: {T}, i0: int", ["0 <= i0 < 8"],
-        "    m = lmap.map({kw.keyword('tag'): x})\n    return [vec.vector([1]).with_meta(m), sym.symbol('s').with_meta(m), llist.list([1, 2]).with_meta(m),"
+        "    m = lmap.map({kw.keyword('tag'): x})\n    return pick([vec.vector([1]).with_meta(m), sym.symbol('s').with_meta(m), llist.list([1, 2]).with_meta(m),"
         " lmap.map({kw.keyword('k'): 1}).with_meta(m), lset.set([1]).with_meta(m), lqueue.queue([1, 2]).with_meta(m),"
-        " vec.vector([lqueue.queue([1]).with_meta(m), llist.list([sym.symbol('q').with_meta(m)])]), llist.list([]).with_meta(m)][i0]",
+        " vec.vector([lqueue.queue([1]).with_meta(m), llist.list([sym.symbol('q').with_meta(m)])]), llist.list([]).with_meta(m)], i0)",
         prop_body="    v = build(x, i0)\n    if not roundtrip(v, meta=True):\n        return False\n"
                   "    back = read_all(PR(v, False, True, False))[0]\n"
                   "    inner = back if i0 != 6 else back[0]\n"
@@ -161,9 +185,9 @@ def specs(quick, timeout):
         bound="metadata {:tag x} on vector / symbol / list / map / set / queue / nested / empty list", kind="meta")
     # uuid, inst, regex, bytes
     add("tagged/uuid-regex", "i0: int", ["0 <= i0 < 3"],
-        "    return [uuid.UUID('12345678-1234-5678-1234-567812345678'), re.compile('a+b*x'), re.compile('')][i0]",
+        "    return pick([uuid.UUID('12345678-1234-5678-1234-567812345678'), re.compile('a+b*x'), re.compile('')], i0)",
         bound="a UUID and two backslash-free patterns (solver-chosen)", kind="tagged")
-    add("tagged/regex-with-backslash", "i0: int", ["0 <= i0 < 2"], "    return [re.compile('a+\\\\d'), re.compile('\\\\s')][i0]",
+    add("tagged/regex-with-backslash", "i0: int", ["0 <= i0 < 2"], "    return pick([re.compile('a+\\\\d'), re.compile('\\\\s')], i0)",
         bound="patterns containing a backslash", kind="regex-backslash")
     add("bytes", "b: bytes", ["len(b) <= 1"], "    return b", bound="every byte string of <= 1 byte", kind="bytes")
     return out
